@@ -104,6 +104,44 @@ func Decode(enc string, data []byte, t *Target) (any, error) {
 	return ptr, err
 }
 
+// wipeBytes overwrites (and appends one byte to, within capacity) every byte slice reachable from v; returns how many.
+func wipeBytes(v reflect.Value, depth int) int {
+	if depth > 40 || !v.IsValid() {
+		return 0
+	}
+	n := 0
+	switch v.Kind() {
+	case reflect.Pointer, reflect.Interface:
+		if !v.IsNil() {
+			n += wipeBytes(v.Elem(), depth+1)
+		}
+	case reflect.Struct:
+		if v.Type().PkgPath() == "time" || v.Type().PkgPath() == "math/big" {
+			return 0
+		}
+		for i := 0; i < v.NumField(); i++ {
+			if v.Type().Field(i).IsExported() {
+				n += wipeBytes(v.Field(i), depth+1)
+			}
+		}
+	case reflect.Slice:
+		if v.Type().Elem().Kind() == reflect.Uint8 {
+			b := v.Bytes()
+			for k := range b {
+				b[k] = 0xEE
+			}
+			if cap(b) > len(b) {
+				_ = append(b, 0xEE) // writes into the spare capacity, if the slice was handed out with any
+			}
+			return 1
+		}
+		for i := 0; i < v.Len(); i++ {
+			n += wipeBytes(v.Index(i), depth+1)
+		}
+	}
+	return n
+}
+
 func show(enc string, b []byte) string {
 	if enc == "ttlv" {
 		if len(b) > 2000 {
@@ -171,6 +209,16 @@ func Probe(c *core.Ctx, prop, enc string, t *Target, data []byte, class string) 
 	if e1 == nil {
 		c.Count("accepted", 1)
 		c.Count("accepted."+enc, 1)
+		// the decoded value is the caller's: wiping the byte strings of the SECOND decode result (as one does with key
+		// material) must leave the input buffer alone, or decoding the same bytes again would give something else
+		if n := wipeBytes(reflect.ValueOf(v2), 0); n > 0 {
+			c.Count("decoded_byte_strings_wiped", int64(n))
+			if !bytes.Equal(big, saved) {
+				c.Violation(prop+":input-mutated-through-decoded-value:"+enc, fmt.Sprintf("overwriting a byte string of the decoded value changes the input buffer: the %s decoder hands out windows on its input (target %s, %s input)", enc, t.Name, class),
+					map[string]any{"encoding": enc, "target": t.Name, "input": show(enc, data)})
+				copy(big, saved)
+			}
+		}
 		// containment: the generic target walks the whole tree, so whatever it accepts must keep every
 		// item inside the declared extent of its enclosing structure (independent, lenient extent walk)
 		if enc == "ttlv" && t.Name == "Value" {
@@ -488,7 +536,7 @@ func Spec() *core.Spec {
 			"child-beyond-parent extent pairs with two different fillers, Stream.Recv under chunking and the HTTP handler with three content types; " +
 			"each call runs under panic, canary/mutation, determinism and hang monitors. nested-extent documents (XML, JSON, binary) where a nested structure receives trailing children (unknown-type element, altered copies of the parent's following fields) and everything outside it must decode as in the undisturbed message; distinct = distinct (encoding, target, input bytes)",
 		Assumptions: []string{"inputs are bounded by 64 KiB except the nesting ladders (<= 1 MiB, the server's transport limit)", "the decoders' answers are not judged here (C01/C03/C18), only that they answer"},
-		Required:    []string{"decodes.ttlv", "decodes.xml", "decodes.json", "accepted", "rejected", "extent_pairs", "extent_walks", "nested_extent.accepted.mode0.xml", "nested_extent.accepted.mode0.json", "nested_extent.accepted.mode1.xml", "nested_extent.accepted.mode2.xml", "nested_extent.accepted.mode1.ttlv", "stream_recvs", "http_requests"},
+		Required:    []string{"decodes.ttlv", "decodes.xml", "decodes.json", "accepted", "rejected", "extent_pairs", "extent_walks", "decoded_byte_strings_wiped", "nested_extent.accepted.mode0.xml", "nested_extent.accepted.mode0.json", "nested_extent.accepted.mode1.xml", "nested_extent.accepted.mode2.xml", "nested_extent.accepted.mode1.ttlv", "stream_recvs", "http_requests"},
 		EvalCounter: "decodes",
 		Families: []core.Family{
 			{Name: "bin-ladder", N: nOf(400, 6000), Run: func(c *core.Ctx, r *core.Rand, i int) {
